@@ -37,6 +37,7 @@ class UnixTransport(BaseTransport, scheme="unix"):
     async def close(self) -> None:
         if self.is_closed:
             return
+        self.is_closed = True
         self.writer.close()
         try:
             await self.writer.wait_closed()
